@@ -172,6 +172,9 @@ def run_plan_property(prop, tier, seed, checks, nontrivial, describe, known_filt
                             {"kind": "correspondence-broken", "correspondence": "KV.planDumpE vs harness/extract of *_band.go", "case": l, "model": a, "impl": b})
     finally:
         p_e2e.close_streams()
+    # hand-written probes: inputs found by reading the code / by the defect hunt (recorded findings and repaired defects)
+    from . import probes
+    probes.run(R, prop, repo_dir)
     # multi-package end-to-end stream (types spread over same-named packages, imports synthesised by the generator)
     if prop in ("C02", "C09", "C10"):
         from . import xpkg
